@@ -479,19 +479,21 @@ def sm2sign_oid(l):
 def issue_cert(l, version, serial, issuer, nb, na, subject, pub, iuid, suid, exts, sign_d, signer_id, seed):
     skey = key_in(d=sign_d)
     pkey = key_in(pub=pub)
-    sb, ib, ub_, ivb, svb, eb, idb = Buf.of(serial), Buf.of(issuer), Buf.of(subject), Buf.of(iuid), Buf.of(suid), Buf.of(exts), Buf.of(signer_id)
+    sb, ib, ub_, ivb, svb, eb = Buf.of(serial), Buf.of(issuer), Buf.of(subject), Buf.of(iuid), Buf.of(suid), Buf.of(exts)
+    idb, idlen = id_args(signer_id)
     alg = sm2sign_oid(l)
     return _signed(l, seed, lambda o, n: l.x509_cert_sign_to_der(
         version, sb, len(serial), alg, ib, len(issuer), nb, na, ub_, len(subject), pkey,
         ivb if iuid else None, len(iuid), svb if suid else None, len(suid), eb if exts else None, len(exts),
-        skey, idb, len(signer_id), o, n), "x509_cert_sign_to_der", "cert/sign-refused")
+        skey, idb, idlen, o, n), "x509_cert_sign_to_der", "cert/sign-refused")
 
 
 def issue_req(l, subject, pub, attrs, sign_d, signer_id, seed):
     skey, pkey = key_in(d=sign_d), key_in(pub=pub)
-    sb, ab, idb = Buf.of(subject), Buf.of(attrs), Buf.of(signer_id)
+    sb, ab = Buf.of(subject), Buf.of(attrs)
+    idb, idlen = id_args(signer_id)
     alg = sm2sign_oid(l)
-    return _signed(l, seed, lambda o, n: l.x509_req_sign_to_der(0, sb, len(subject), pkey, ab, len(attrs), alg, skey, idb, len(signer_id), o, n),
+    return _signed(l, seed, lambda o, n: l.x509_req_sign_to_der(0, sb, len(subject), pkey, ab, len(attrs), alg, skey, idb, idlen, o, n),
                    "x509_req_sign_to_der", "req/sign-refused")
 
 
@@ -518,11 +520,12 @@ def lib_revoked(l, en):
 
 def issue_crl(l, version, issuer, this_update, next_update, revoked, exts, sign_d, signer_id, seed):
     skey = key_in(d=sign_d)
-    ib, rb, eb, idb = Buf.of(issuer), Buf.of(revoked), Buf.of(exts), Buf.of(signer_id)
+    ib, rb, eb = Buf.of(issuer), Buf.of(revoked), Buf.of(exts)
+    idb, idlen = id_args(signer_id)
     alg = sm2sign_oid(l)
     return _signed(l, seed, lambda o, n: l.x509_crl_sign_to_der(version, alg, ib, len(issuer), this_update, next_update,
                                                                  rb if revoked else None, len(revoked), eb if exts else None, len(exts),
-                                                                 skey, idb, len(signer_id), o, n), "x509_crl_sign_to_der", "crl/sign-refused")
+                                                                 skey, idb, idlen, o, n), "x509_crl_sign_to_der", "crl/sign-refused")
 
 
 # ---------------------------------------------------------------------------------------------------
@@ -671,6 +674,17 @@ def signed_verify(l, der, pub, signer_id):
     return l.x509_signed_verify(Buf.of(der), len(der), key_in(pub=pub), Buf.of(signer_id), len(signer_id))
 
 
+def id_args(signer_id):
+    """(pointer, length) for a signer ID; None = NULL pointer (no Z value), b"" = a valid pointer with length 0"""
+    if signer_id is None:
+        return None, 0
+    return Buf.of(signer_id if signer_id else b"\0"), len(signer_id)
+
+
+def id_text(signer_id):
+    return "NULL" if signer_id is None else "(empty, length 0)" if not signer_id else signer_id.hex()
+
+
 class Verifier:
     """x509_signed_verify with key and ID blocks allocated once (bit-flip loops)"""
 
@@ -679,19 +693,20 @@ class Verifier:
         self.key = key_in(pub=pub)
         if lam != 1:
             self.key.write(pt_in(pub, lam).raw(), 0)
-        self.id = Buf.of(signer_id)
-        self.idlen = len(signer_id)
+        self.id, self.idlen = id_args(signer_id)
 
     def __call__(self, der):
         return self.l.x509_signed_verify(Buf.of(der), len(der), self.key, self.id, self.idlen)
 
 
 def verify_by_ca_cert(l, fn, der, cacert, signer_id):
-    return getattr(l, fn)(Buf.of(der), len(der), Buf.of(cacert), len(cacert), Buf.of(signer_id), len(signer_id))
+    idb, idlen = id_args(signer_id)
+    return getattr(l, fn)(Buf.of(der), len(der), Buf.of(cacert), len(cacert), idb, idlen)
 
 
 def req_verify(l, der, signer_id):
-    return l.x509_req_verify(Buf.of(der), len(der), Buf.of(signer_id), len(signer_id))
+    idb, idlen = id_args(signer_id)
+    return l.x509_req_verify(Buf.of(der), len(der), idb, idlen)
 
 
 # ---------------------------------------------------------------------------------------------------
@@ -723,7 +738,8 @@ def model_verify(der, pub, signer_id):
     o = parse_signed(der)
     if o.sig_rs is None or o.alg.raw != ALG_SM2SIGN:
         return False
-    e = M.digest_for_sign(pub, signer_id, o.tbs.raw)
+    # no signer ID (NULL): the digest is SM3 over the TBS bytes alone, without the Z value
+    e = M.sm3(bytes(o.tbs.raw)) if signer_id is None else M.digest_for_sign(pub, signer_id, o.tbs.raw)
     return M.verify_rs(pub, e, *o.sig_rs)
 
 
